@@ -117,7 +117,9 @@ class PBESolver(ABC):
                 failed = True
             else:
                 success += 1
-        self._score = success / len(task.specification.examples)
+        total = len(task.specification.examples)
+        # no example at all: vacuously satisfied (as CutoffPBESolver), not a division by zero
+        self._score = success / total if total > 0 else 1
         return not failed
 
 
